@@ -27,6 +27,33 @@ def translate(ck):
     return json.loads(p.stdout.strip().splitlines()[-1])
 
 
+def translate_full(ck):
+    p = subprocess.run([PY, os.path.join(VERIF, "translators", "tr_regen.py")], capture_output=True, text=True,
+                       env=impl_env(), timeout=900)
+    if p.returncode != 0:
+        ck.oblige("translate:tr_regen", False, p.stderr[-2000:], kind="translate")
+        return None
+    ck.oblige("translate:tr_regen", True, kind="translate")
+    return json.loads(p.stdout.strip().splitlines()[-1])
+
+
+def _units(us):
+    return coq_list(["(%s, %s, %s)" % (coq_str(o), coq_str(m), coq_str(d)) for o, m, d in us])
+
+
+def _pairs(ps):
+    return coq_list(["(%s, %s)" % (coq_str(a), coq_str(b)) for a, b in ps])
+
+
+def full_diffs(f):
+    out = [dict(kind="regenerated-unit", **{"class": x["owner"], "method": x["member"]},
+                regenerated=x["regenerated"], shipped=x["shipped"]) for x in f["differences"]]
+    if f["header_options"] != f["script_options"]:
+        out.append({"kind": "generator-options", "class": "", "method": "header-vs-script",
+                    "shipped_header": f["header_options"], "regenerate_script": f["script_options"]})
+    return out
+
+
 def first_diffs(d):
     """concrete failing (class, method, statement) pairs"""
     out = []
@@ -80,7 +107,12 @@ def run(ck):
     ck.trusted = ["Coq 8.16.1 kernel + vm_compute (no native_compute)",
                   "translators/tr_helpers.py (python ast.parse/ast.unparse normal form, docstrings stripped; "
                   "helper_methods.py executed by path and interpolated as generateDS.generateUserMethods does)",
-                  "template-method name list of generateDS 2.44 (everything else in a class body must come from a spec)"]
+                  "template-method name list of generateDS 2.44 (everything else in a class body must come from a spec)",
+                  "translators/tr_regen.py (runs /venv/bin/generateDS.py with the command line read from regenerate-nml.sh in a "
+                  "scratch copy of neuroml/nml; sha256 digests of docstring/annotation-free ast.dump per unit; the "
+                  "`<C>.superclass.validate_(...)` statement newer generators append is dropped from the regenerated side "
+                  "when the installed generator is not the one named in the shipped header)",
+                  "the installed generateDS (the generator itself is not modelled)"]
     ck.assumptions = ["ast.unparse-equal statements behave equally", "comments/docstrings/formatting are not behaviour"]
     ck.gate_static()
     d = translate(ck)
@@ -111,10 +143,37 @@ def run(ck):
                                   "From Run Require Import Gen_C20.\n"
                                   "Lemma facts_ok : regen_ok Gen_C20.facts = true.\nProof. vm_compute. reflexivity. Qed.\n")
     iok, _ = ck.compile_obligations(inst, kind="instance")
-    if iok:
+    # ---- whole-file regeneration (generateDS re-run now)
+    f = translate_full(ck)
+    fok = False
+    if f is not None:
+        g2 = ck.gen_v("Gen_C20full.v", "From Coq Require Import String List Bool.\nFrom LNML Require Import Model.RegenFull.\n"
+                      "Import ListNotations.\nOpen Scope string_scope.\nDefinition facts : full_facts := {|\n"
+                      "  ff_regen := %s;\n  ff_shipped := %s;\n  ff_header_opts := %s;\n  ff_script_opts := %s |}.\n"
+                      % (_units(f["regen_units"]), _units(f["shipped_units"]), _pairs(f["header_options"]),
+                         _pairs(f["script_options"])))
+        ok2, out2 = ck.coqc(g2)
+        ck.oblige("Gen_C20full.v:compiles", ok2, out2[-1500:], kind="translate")
+        inst2 = ck.gen_v("Inst_C20full.v", "From Coq Require Import String List Bool.\nFrom LNML Require Import Model.RegenFull.\n"
+                         "From Run Require Import Gen_C20full.\n"
+                         "Lemma full_ok_holds : full_ok Gen_C20full.facts = true.\nProof. vm_compute. reflexivity. Qed.\n")
+        fok, _ = ck.compile_obligations(inst2, kind="instance")
+        ck.extra["regenerated_units"] = len(f["regen_units"])
+        ck.extra["generator_version"] = f["generator_version"]
+        ck.extra["header_generator_version"] = f["header_version"]
+        ck.extra["normalised_superclass_validate_statements"] = f["normalised_super_validate"]
+        ck.tally("regenerated_units", len(f["regen_units"]))
+        for o, m, _ in f["shipped_units"]:
+            ck.count(1, nontrivial_key=("unit", o, m))
+        for df in full_diffs(f):
+            key = "C20:%s:%s:%s" % (df["kind"], df["class"], df["method"])
+            ck.witness(key, "regenerating the bindings changes %s.%s: %s" % (df["class"], df["method"], json.dumps(df)[:300]),
+                       input=df, broken="Inst_C20full.v:full_ok_holds")
+    if iok and fok:
         ck.compile_props()
     else:
-        ck.oblige("Props_C20.v:C20_regeneration_changes_nothing", False, "instance obligation facts_ok failed", kind="theorem")
+        ck.oblige("Props_C20.v:C20_regeneration_changes_nothing", False,
+                  "instance obligation %s failed" % ("facts_ok" if not iok else "full_ok_holds"), kind="theorem")
     # coverage: the pairs the kernel compared
     for c, items in d["src"]:
         for i, (n, st) in enumerate(items):
@@ -135,5 +194,8 @@ def run(ck):
 def replay(ck, data):
     d = translate(ck)
     diffs = first_diffs(d) if d else None
+    f = translate_full(ck)
+    if f is not None and diffs is not None:
+        diffs = diffs + full_diffs(f)
     print(json.dumps({"stored": data.get("input", data), "current_differences": diffs}, indent=1)[:6000])
     return 1 if diffs else 0
